@@ -426,10 +426,38 @@ class Engine:
         s.store_raw(o, off, size_of(t), val)
 
     @staticmethod
+    def demote(d, off):
+        """the cell covering byte `off` is about to be partially overwritten from `off` on: its head no longer vouches for it"""
+        e = d.get(off)
+        if e is not None and e[2] != 0:
+            h = off - e[2]
+            he = d.get(h)
+            if he is not None and he[2] == 0 and he[1] > 1 and he[0] is e[0]:
+                d[h] = (he[0], -he[1], 0)
+
+    @staticmethod
     def store_raw(o, off, size, val):
+        """Memory invariant: an entry (v, n, 0) with n > 1 (a cell head) guarantees that bytes 1..n-1 of that cell are intact.
+        Whoever overwrites part of a cell whose head lies outside the written range demotes that head to (v, -n, 0)."""
         d = o.data
-        for i in range(size):
-            d[off + i] = (val, size, i)
+        e = d.get(off)
+        if e is not None and e[2] != 0:
+            h = off - e[2]
+            he = d.get(h)
+            if he is not None and he[2] == 0 and he[1] > 1 and he[0] is e[0]:
+                d[h] = (he[0], -he[1], 0)
+        if size == 8:
+            d[off] = (val, 8, 0)
+            d[off + 1] = (val, 8, 1)
+            d[off + 2] = (val, 8, 2)
+            d[off + 3] = (val, 8, 3)
+            d[off + 4] = (val, 8, 4)
+            d[off + 5] = (val, 8, 5)
+            d[off + 6] = (val, 8, 6)
+            d[off + 7] = (val, 8, 7)
+        else:
+            for i in range(size):
+                d[off + i] = (val, size, i)
 
     def const(s, st, v):
         if isinstance(v, Glob):
@@ -495,9 +523,10 @@ class Engine:
                 return fr.loc[v.n]
             except KeyError:
                 raise Unsupported("undefined local %s in %s" % (v.n, fr.fn.name))
-        if type(v) is int:
-            return v
-        return s.const(st, v)
+        t = type(v)
+        if t is Glob or t is CExpr:
+            return s.const(st, v)
+        return v
 
     # ------------------------------------------------------------------ memory access
     def obj_of(s, st, p, size, what):
@@ -543,14 +572,7 @@ class Engine:
             # uninitialised (or partially initialised) memory reads as undef; using it is reported separately
             return UNDEF
         v = first[0]
-        whole = first[1] == size and first[2] == 0
-        if whole and size > 1:
-            for i in range(1, size):
-                e = d.get(off + i)
-                if e is None or e[0] is not v or e[2] != i:
-                    whole = False
-                    break
-        if not whole:
+        if first[1] != size or first[2] != 0:
             parts = []
             for i in range(size):
                 e = d.get(off + i)
@@ -651,6 +673,7 @@ class Engine:
         o = st.wobj(o)
         if v is UNDEF:
             d = o.data
+            s.demote(d, p.off)
             for i in range(size):
                 d.pop(p.off + i, None)
             return
@@ -690,9 +713,39 @@ class Engine:
         return Ptr(None, i)
 
     # ------------------------------------------------------------------ search
+    def link(s, st):
+        """Resolve every constant operand (globals, function symbols, constant expressions) once: addresses of globals are fixed
+        by init_globals, so instructions can carry the final values instead of re-evaluating them on every execution."""
+        mod = s.mod
+        if getattr(mod, 'linked', False):
+            return
+        const = s.const
+
+        def res(x):
+            t = type(x)
+            if t is Glob or t is CExpr:
+                return const(st, x)
+            if t is tuple:
+                return tuple(res(y) for y in x)
+            if t is list:
+                return [res(y) for y in x]
+            if t is dict:
+                return {k: res(v) for k, v in x.items()}
+            return x
+        seen = set()
+        for f in mod.funcs.values():
+            if id(f) in seen:
+                continue
+            seen.add(id(f))
+            for lbl, code in f.blocks.items():
+                for i, ins in enumerate(code):
+                    code[i] = res(ins)
+        mod.linked = True
+
     def start(s, entry):
         st = State()
         s.init_globals(st)
+        s.link(st)
         f = s.mod.funcs.get(entry)
         if f is None:
             raise Unsupported("no such entry point: " + entry)
@@ -719,8 +772,12 @@ class Engine:
 
     def run_one(s, st):
         stats = s.stats
+        steps0 = st.steps
         try:
-            s.run_path(st)
+            try:
+                s.run_path(st)
+            finally:
+                stats.instrs += st.steps - steps0
         except PathEnd as e:
             stats.paths += 1
             stats.ended[e.why] = stats.ended.get(e.why, 0) + 1
@@ -782,7 +839,6 @@ class Engine:
             fr = st.frames[-1]
             ins = fr.code[fr.idx]
             st.steps += 1
-            stats.instrs += 1
             if st.steps > max_steps:
                 raise Violation('non-termination', "path exceeded the step bound of %d instructions" % max_steps)
             dispatch[ins[0]](st, fr, ins)
@@ -793,12 +849,39 @@ class Engine:
 
     def i_bin(s, st, fr, ins):
         _, dst, op, t, a, b = ins
-        fr.loc[dst] = s.binop(op, t, s.val(st, fr, a), s.val(st, fr, b), st)
+        loc = fr.loc
+        if type(a) is Loc:
+            a = loc[a.n]
+        if type(b) is Loc:
+            b = loc[b.n]
+        loc[dst] = s.binop(op, t, a, b, st)
         fr.idx += 1
 
     def i_icmp(s, st, fr, ins):
         _, dst, pred, t, a, b = ins
-        fr.loc[dst] = s.icmp(st, pred, t, s.val(st, fr, a), s.val(st, fr, b))
+        loc = fr.loc
+        if type(a) is Loc:
+            a = loc[a.n]
+        if type(b) is Loc:
+            b = loc[b.n]
+        if type(a) is int and type(b) is int:
+            # concrete fast path
+            if pred == 'eq':
+                loc[dst] = 1 if a == b else 0
+            elif pred == 'ne':
+                loc[dst] = 1 if a != b else 0
+            elif pred == 'ult':
+                loc[dst] = 1 if a < b else 0
+            elif pred == 'ugt':
+                loc[dst] = 1 if a > b else 0
+            elif pred == 'ule':
+                loc[dst] = 1 if a <= b else 0
+            elif pred == 'uge':
+                loc[dst] = 1 if a >= b else 0
+            else:
+                loc[dst] = s.icmp(st, pred, t, a, b)
+        else:
+            loc[dst] = s.icmp(st, pred, t, a, b)
         fr.idx += 1
 
     def i_fcmp(s, st, fr, ins):
@@ -808,22 +891,73 @@ class Engine:
 
     def i_cast(s, st, fr, ins):
         _, dst, op, t, a, t2 = ins
-        fr.loc[dst] = s.cast(st, op, t, s.val(st, fr, a), t2)
+        if type(a) is Loc:
+            a = fr.loc[a.n]
+        if type(a) is int:
+            if op == 'zext':
+                fr.loc[dst] = a
+                fr.idx += 1
+                return
+            if op == 'trunc':
+                fr.loc[dst] = a & ((1 << t2.a) - 1)
+                fr.idx += 1
+                return
+        fr.loc[dst] = s.cast(st, op, t, a, t2)
         fr.idx += 1
 
     def i_load(s, st, fr, ins):
         _, dst, t, a = ins
-        fr.loc[dst] = s.load(st, s.val(st, fr, a), t)
+        if type(a) is Loc:
+            a = fr.loc[a.n]
+        # fast path: whole-cell load of a scalar from a live object
+        if type(a) is Ptr and a.obj is not None:
+            k = t.k
+            if k == 'int' or k == 'ptr':
+                o = st.objs.get(a.obj)
+                if o is not None and o.alive:
+                    off = a.off
+                    size = t._size
+                    if size is None:
+                        size = size_of(t)
+                    if 0 <= off and off + size <= o.size:
+                        e = o.data.get(off)
+                        if e is not None and e[1] == size and e[2] == 0:
+                            v = e[0]
+                            tv = type(v)
+                            if (k == 'int' and tv is int and t.a == size * 8) or (k == 'ptr' and (tv is Ptr or tv is FnRef)):
+                                s.stats.mem_checks += 1
+                                fr.loc[dst] = v
+                                fr.idx += 1
+                                return
+        fr.loc[dst] = s.load(st, a, t)
         fr.idx += 1
 
     def i_store(s, st, fr, ins):
         _, t, v, a = ins
-        s.store(st, s.val(st, fr, a), t, s.val(st, fr, v))
+        loc = fr.loc
+        if type(a) is Loc:
+            a = loc[a.n]
+        if type(v) is Loc:
+            v = loc[v.n]
+        s.store(st, a, t, v)
         fr.idx += 1
 
     def i_gep(s, st, fr, ins):
         _, dst, bt, base, idx = ins
-        b = s.val(st, fr, base)
+        loc = fr.loc
+        b = loc[base.n] if type(base) is Loc else base
+        if len(idx) == 1 and bt.k == 'int' and bt.a == 8:
+            # the common form: byte offset
+            x = idx[0][1]
+            if type(x) is Loc:
+                x = loc[x.n]
+            if type(x) is int and type(b) is Ptr:
+                w = idx[0][0].a
+                if x >> (w - 1):
+                    x -= 1 << w
+                loc[dst] = Ptr(b.obj, b.off + x)
+                fr.idx += 1
+                return
         iv = []
         for it, x in idx:
             v = s.val(st, fr, x)
@@ -873,8 +1007,17 @@ class Engine:
         return s.branch(st, c == 1)
 
     def i_condbr(s, st, fr, ins):
-        c = s.val(st, fr, ins[1])
-        s.jump(fr, ins[2] if s.truth(st, c) else ins[3])
+        c = ins[1]
+        if type(c) is Loc:
+            c = fr.loc[c.n]
+        if type(c) is int:
+            lbl = ins[2] if c & 1 else ins[3]
+        else:
+            lbl = ins[2] if s.truth(st, c) else ins[3]
+        fr.prev = fr.blk
+        fr.blk = lbl
+        fr.code = fr.fn.blocks[lbl]
+        fr.idx = 0
 
     def i_switch(s, st, fr, ins):
         _, t, v, d, cases = ins
